@@ -63,6 +63,7 @@ type Run struct {
 	MaxSteps int
 	peers    []*Peer
 	simEnd   time.Duration
+	frozenDigest string
 	stallArmedAt map[int]int64 // link id -> bytes delivered on the reverse link when the stall was armed
 }
 
@@ -121,8 +122,12 @@ func (r *Run) Logf(format string, args ...interface{}) {
 	if r.FullLog != nil {
 		r.FullLog = append(r.FullLog, line)
 	}
-	io.WriteString(r.digest, line)
-	io.WriteString(r.digest, "\n")
+	if !strings.HasPrefix(s, "net: ") {
+		// socket-level happenings inside one quiescence phase (e.g. the order in which a closing
+		// session closes its streams: Go map iteration) are logged but are not driver decisions
+		io.WriteString(r.digest, line)
+		io.WriteString(r.digest, "\n")
+	}
 	if len(r.Head) < 150 {
 		r.Head = append(r.Head, line)
 	} else if len(r.Events) >= maxEventTail {
@@ -192,10 +197,22 @@ func (r *Run) Failed() bool {
 	return r.Viol != nil
 }
 
+// Digest identifies the event log of the run up to the scenario's verdict.
+// Tear-down afterwards (shutting servers down walks Go maps, whose iteration
+// order cannot be seeded) is not part of it.
 func (r *Run) Digest() string {
 	r.mu.Lock()
 	defer r.mu.Unlock()
+	if r.frozenDigest != "" {
+		return r.frozenDigest
+	}
 	return hex.EncodeToString(r.digest.Sum(nil))[:16]
+}
+
+func (r *Run) freezeDigest() {
+	r.mu.Lock()
+	r.frozenDigest = hex.EncodeToString(r.digest.Sum(nil))[:16]
+	r.mu.Unlock()
 }
 
 func (r *Run) OnCleanup(f func()) { r.cleanup = append(r.cleanup, f) }
@@ -349,6 +366,7 @@ func Execute(t *testing.T, r *Run, body func(r *Run)) (leaked int, hung bool) {
 				}()
 				body(r)
 				r.simEnd = time.Since(r.Start)
+				r.freezeDigest()
 			}()
 		})
 	}()
